@@ -80,3 +80,16 @@ def _union_perm(prop, v):
     the routine built for whichever spelling came first in the process."""
     return v.get("kind") in ("permutation-served-from-cache",) or (
         v.get("kind") == "history-dependent" and v.get("mechanism") == "union-permutation")
+
+
+# ---- C11 -----------------------------------------------------------------------------------
+
+@classifier("nested-bare-string-reference")
+def _nested_strref(prop, v):
+    """A bare string used as a generic argument OUTSIDE a class body (list['Name'], Optional['Name']) carries no
+    module, so routine construction cannot evaluate it (NameError / TypeError); the same string in a class field
+    (resolved by typing.get_type_hints) and ForwardRef(..., module=...) work."""
+    chain = v.get("chain", "")
+    last = chain.split("@")[0].split("+")[-1]
+    pos = chain.split("@")[-1].split("(")[0]
+    return (v.get("kind") in ("wrapped-does-not-build", "not-transparent") and last == "strref" and pos in ("coll", "mapval", "tuple", "union"))
